@@ -27,7 +27,7 @@ ANCHORS = [
 NAMED = ["sum", "prod", "any", "all", "max", "min", "mean", "argmax", "argmin"]
 NEEDS_NONEMPTY = {"max", "min", "mean", "argmax", "argmin", "maximum", "minimum"}
 UFUNCS = ["add", "multiply", "logical_and", "logical_or", "logical_xor", "bitwise_and", "bitwise_or", "bitwise_xor", "maximum", "minimum"]
-MODES = ["method", "np", "ufunc.reduce", "axisNone", "keepdims", "np-keepdims", "ufunc-keepdims", "axis1"]
+MODES = ["method", "np", "ufunc.reduce", "axisNone", "keepdims", "np-keepdims", "ufunc-keepdims", "axis1", "np-positional", "axis-npint"]
 FLOOR_TAGS = ["recv:" + r for r in c02.RECVS] + ["mode:" + m for m in MODES] + ["f:" + f for f in NAMED + UFUNCS] + ["kind:b", "kind:i", "kind:u", "kind:f", "norows", "allempty", "e-first", "e-last", "e-mid", "e-consec", "e-none", "trailing-run"]
 FLOOR_MONITORS = ["c05:compare", "c05:identity-for-empty-row"]
 N_RANDOM = {"quick": 36000, "thorough": 500000}
@@ -78,6 +78,10 @@ def run(case):
         a = attempt(lambda: getattr(ra, name)(axis=ax))
     elif mode == "np":
         a = attempt(lambda: f_np(ra, axis=-1))
+    elif mode == "np-positional":
+        a = attempt(lambda: f_np(ra, -1))
+    elif mode == "axis-npint":
+        a = attempt(lambda: getattr(ra, name)(axis=np.int64(-1)))
     elif mode == "ufunc.reduce":
         a = attempt(lambda: f_np.reduce(ra, axis=-1))
     elif mode == "keepdims":
